@@ -131,7 +131,7 @@ impl TT for Arc<DNode> {
 
 // ---------------------------------------------------------------- tuple-of-containers implementation
 /// children = first? ++ mid ++ last?;  first is present iff label is odd (and there is a child), last iff
-/// bit 1 of the label is set (and a child is left) -- lib/props/C42.py groups_tuple() mirrors this
+/// label % 4 != 0 (and a child is left) -- lib/props/C42.py groups_tuple() mirrors this
 #[derive(Debug, Clone, PartialEq, Default)]
 struct TNode {
     data: i64,
@@ -163,7 +163,7 @@ impl TT for TNode {
     fn build(s: &S) -> Self {
         let mut cs: Vec<TNode> = s.cs.iter().map(TNode::build).collect();
         let first = if s.l.rem_euclid(2) == 1 && !cs.is_empty() { Some(Box::new(cs.remove(0))) } else { None };
-        let last = if (s.l.div_euclid(2)).rem_euclid(2) == 1 && !cs.is_empty() { Some(Box::new(cs.pop().unwrap())) } else { None };
+        let last = if s.l.rem_euclid(4) != 0 && !cs.is_empty() { Some(Box::new(cs.pop().unwrap())) } else { None };
         TNode { data: s.l, first, mid: cs, last }
     }
     fn label(&self) -> i64 {
